@@ -139,10 +139,10 @@ func (portHistWorld) Gen(seed uint64, tier string) core.Scenario {
 			if r.Chance(1, 5) {
 				k = r.Range(2, 3)
 			}
-			if r.Chance(1, 15) {
+			if r.Chance(1, 10) {
 				// a message the listener answers from inside the callback, depth times (echo / thru)
 				op.Data = core.Hex{0xBF, 0x70, byte(r.PickInt(1, 2, 3, 3, 65, 100, 127))}
-				if m.listener >= 0 && m.outOpen && r.Chance(1, 4) {
+				if m.listener >= 0 && m.outOpen && r.Chance(1, 2) {
 					// BF 71: the listener stops itself from inside the callback and then sends once more
 					op.Data = core.Hex{0xBF, 0x71, 0x00}
 					m.stopped[m.listener] = true
